@@ -181,3 +181,10 @@ Definition elem_truthy (x : elem) : bool := match x with ENone => false | EObj _
 Definition elem_isinstance (x : elem) (cls : string) : bool := match x with ENone => false | EObj c => String.eqb c cls end.
 (* what the schedule validators see of such a list: object / None placeholder *)
 Definition mask_of (l : list elem) : list bool := map elem_truthy l.
+
+(* ================================================================== part 5: default values of parameters
+   A default expression is evaluated ONCE, at function definition; a mutable default (list / dict / set / call / a name whose
+   value the translator cannot see) is one object shared by every call — state leaking between instances.  The translator
+   lists the default of every parameter of every method of the anchored classes with its kind. *)
+Inductive dkind := DNone | DConst | DTuple | DMutable.
+Definition dkind_immutable (d : dkind) : bool := match d with DMutable => false | _ => true end.
